@@ -86,6 +86,13 @@ def shapes():
     S["position.x == position.y (same variable)"] = lambda o: (p := let(Position, o["Position"]), p.x == p.y)
     S["fixed.parent == prismatic.child (join)"] = lambda o: (f := let(FixedConnection, o["FixedConnection"]), f.parent == let(PrismaticConnection, o["PrismaticConnection"]).child)
     S["fixed.child == prismatic.parent (join)"] = lambda o: (f := let(FixedConnection, o["FixedConnection"]), f.child == let(PrismaticConnection, o["PrismaticConnection"]).parent)
+    S["fixed.parent.name == b0 and fixed.child.name == b1 (two paths to one table)"] = lambda o: (f := let(FixedConnection, o["FixedConnection"]), and_(f.parent.name == "b0", f.child.name == "b1"))
+    S["fixed.parent.name == b0 or fixed.child.name == b0 (two paths to one table)"] = lambda o: (f := let(FixedConnection, o["FixedConnection"]), or_(f.parent.name == "b0", f.child.name == "b0"))
+    S["prismatic.parent.name != prismatic.child.name"] = lambda o: (f := let(PrismaticConnection, o["PrismaticConnection"]), f.parent.name != f.child.name)
+    S["x != z and x == q.z (two variables of one type)"] = lambda o: (p := let(Position, o["Position"]), and_(p.x != p.z, p.x == let(Position, o["Position"]).z))
+    S["(x==1 and y==2) or z==3"] = lambda o: (p := let(Position, o["Position"]), or_(and_(p.x == 1.0, p.y == 2.0), p.z == 3.0))
+    S["z==3 and (x==1 or y==2)"] = lambda o: (p := let(Position, o["Position"]), and_(p.z == 3.0, or_(p.x == 1.0, p.y == 2.0)))
+    S["x == 99 (no row)"] = lambda o: (p := let(Position, o["Position"]), p.x == 99.0)
     S["p.x == q.y (two variables, scalars)"] = lambda o: (p := let(Position, o["Position"]), p.x == let(Position, o["Position"]).y)
     S["p.x < q.x (two variables, scalars)"] = lambda o: (p := let(Position, o["Position"]), p.x < let(Position, o["Position"]).x)
     S["pose.position.x == orientation.x (two variables)"] = lambda o: (p := let(Pose, o["Pose"]), p.position.x == let(Orientation, o["Orientation"]).x)
